@@ -177,3 +177,18 @@ for _v, (_pt, _ft, _link, _mi, _vi, _bad) in GV_FIXED.items():
         },
         props=["C01", "C13", "C06"],
     )
+
+# ------------------------------------------------------------------------------------------------ LocalAnomalyScore: cut validation (C13)
+LAS = "skchange/anomaly_scores/from_cost.py"
+_LVALID = ("(c == 4 and forall(range(r), lambda i: cuts[i, 1] - cuts[i, 0] >= 1 and cuts[i, 2] - cuts[i, 1] >= 1 and cuts[i, 3] - cuts[i, 2] >= 1 and "
+           "cuts[i, 2] - cuts[i, 1] >= self.cost.min_size and (cuts[i, 1] - cuts[i, 0]) + (cuts[i, 3] - cuts[i, 2]) >= self.cost.min_size))")
+contract(
+    target=f"{LAS}::LocalAnomalyScore._check_cuts",
+    params={"self": "obj:LocalAnomalyScore", "self.cost": "obj:~BaseCost", "self.cost.min_size": "int", "cuts": "int[r,c]"},
+    requires=["self.cost.min_size >= 1"],
+    # the rule of the local anomaly score: four strictly increasing entries, inner interval and the pooled surroundings each at least min_size long
+    raises={"ValueError": f"not {_LVALID}"},
+    returns="int[r,c]",
+    ensures={"same": "result.shape == (r, c) and forall(range(r), range(c), lambda i, q: result[i, q] == cuts[i, q])"},
+    props=["C13"],
+)
